@@ -406,11 +406,11 @@ def api_model_script(r):
             b = nxt.get("basis", ("-", "-"))
             pi = nxt["pi"][1] if nxt.get("pi", (1,))[0] == 0 else []
             if t[2] in ("PRIMAL", "DUAL"):
-                lines.append("SOLVE h0 %s ORACLE %s %s %s PI %s" % (t[2], stt, b[0], b[1], " ".join(pi)))
+                lines.append("SOLVE h0 %s ORACLE %s %s %s RN %s PI %s" % (t[2], stt, b[0], b[1], nxt["state"].get("rownorms", "0"), " ".join(pi)))
             else:
                 s_ = nxt["state"]
                 has_b = s_.get("basis", "-") != "-"
-                lines.append("SYNC h0 %s %s %s %s %s PI %s" % (s_["qstatus"], s_["factorok"], s_["cache"], b[0] if has_b else "none", b[1], " ".join(pi)))
+                lines.append("SYNC h0 %s %s %s %s %s RN %s PI %s" % (s_["qstatus"], s_["factorok"], s_["cache"], b[0] if has_b else "none", b[1], s_.get("rownorms", "0"), " ".join(pi)))
             factor_unknown = False
             continue
         if t[0] == "GETBASIS":
@@ -428,8 +428,7 @@ def api_model_script(r):
             if out[i][0].split()[2] == "OK":
                 lines.append("MLOADBASIS h0 %s %s" % (t[2], t[3]))
             continue
-        if t[0] in ("ADDROW", "ADDRROW", "ADDROWS", "ADDRROWS"):
-            factor_unknown = True       # depends on stored dual norms (not modelled)
+        # factorok after QSadd_row(s) is modelled (Api.addrows_factor: depends on whether the stored basis carries row norms, a_rn)
         elif t[0] in ("NEWROW", "DELROW", "DELROWS", "DELCOL", "DELCOLS", "CHGCOEF", "CHGSENSE", "CHGSENSES", "CHGRANGE"):
             factor_unknown = False
         lines.append(op)
@@ -506,7 +505,7 @@ def main():
         raise Fail("drv_store KKTU failed: " + r_.stderr[-1000:])
     kans = {t[1]: t[2:] for t in (l.split() for l in r_.stdout.splitlines()) if len(t) >= 3 and t[0] == "A"}
     tans = run_model("drv_solve", "\n".join(tq) + "\n")
-    # ---- correspondence Api model <-> library state (qstatus, cache presence and sizes, basis presence and sizes, factorok)
+    # ---- correspondence Api model <-> library state (qstatus, cache presence and sizes, basis presence and sizes, stored row norms, factorok)
     api_cases, api_meta = [], {}
     for r in results:
         lines, cstates, flags = api_model_script(r)
@@ -521,7 +520,7 @@ def main():
         api_stats["histories"] += 1
         for k_, (cs_, ms_, fu) in enumerate(zip(cstates, got, flags)):
             api_stats["states_compared"] += 1
-            keys = ["qstatus", "cache", "cache_dims", "basis"] + ([] if fu else ["factorok"])
+            keys = ["qstatus", "cache", "cache_dims", "basis", "rownorms"] + ([] if fu else ["factorok"])
             if fu:
                 api_stats["factorok_skipped"] += 1
             cview = {k2: cs_.get(k2) for k2 in keys}
@@ -683,7 +682,7 @@ def main():
                       "judged by check_kkt; INFEASIBLE/UNBOUNDED references rest on C02/C03", "GMP arithmetic exact"]
     ck.finish(trusted_base=["coqc 8.16.1 kernel", "OCaml extraction", "harness h_store.c (live session) + ocaml/drv_store.ml (KKTU) + drv_solve (toint) + checks/C05.py"],
               extra=dict(not_covered="the simplex and the LU factorization are oracles of the Api model (not modelled); factor/norm reuse is covered by exploration only; "
-                                     "Inv_factor is not stated (factored matrix is not observable through the API); delete-rows-keeps-cache soundness is a hypothesis of the _partial theorem, monitored at run time"))
+                                     "Inv_factor is not stated (factored matrix is not observable through the API); delete-rows-keeps-cache soundness is proved (C05_Inv_cache, C05_delrows_zero_pi_keeps_certificate) and still monitored at run time"))
 
 
 main_guard(main)
